@@ -607,17 +607,35 @@ func ruleCachedGet(w *World, r *Report) {
 		}
 		n++
 		gtc := fetcherTermCtx(get)
-		var errConds []string
+		// each way of reaching an error return of Get is a conjunction of branch outcomes; a failing block with several
+		// ways in (`key < 0 || int(key) >= len(s)`) contributes one conjunction per incoming edge
+		var errConds [][]string
+		terms := func(tc *termCtx, facts []Fact) []string {
+			var out []string
+			for _, fc := range facts {
+				t := tc.term(fc.Cond)
+				if !fc.Truth {
+					t = negateTerm(t)
+				}
+				out = append(out, t)
+			}
+			return out
+		}
 		for _, ret := range allReturns(get) {
 			if nonNil, _ := isErrorReturn(ret); !nonNil {
 				continue
 			}
-			for _, fc := range factsAt(ret.Block()) {
-				t := gtc.term(fc.Cond)
-				if !fc.Truth {
-					t = negateTerm(t)
+			b := ret.Block()
+			if len(b.Preds) <= 1 {
+				errConds = append(errConds, terms(gtc, factsAt(b)))
+				continue
+			}
+			for _, p := range b.Preds {
+				for k, sx := range p.Succs {
+					if sx == b {
+						errConds = append(errConds, terms(gtc, factsAtEdge(p, k)))
+					}
 				}
-				errConds = append(errConds, t)
 			}
 		}
 		ctc := fetcherTermCtx(cached)
@@ -625,14 +643,7 @@ func ruleCachedGet(w *World, r *Report) {
 		why := ""
 		for _, ret := range allReturns(cached) {
 			// conditions known when true is returned
-			var have []string
-			for _, fc := range factsAt(ret.Block()) {
-				t := ctc.term(fc.Cond)
-				if !fc.Truth {
-					t = negateTerm(t)
-				}
-				have = append(have, t)
-			}
+			have := terms(ctc, factsAt(ret.Block()))
 			if b, ok := constBool(ret.Results[0]); ok {
 				if !b {
 					continue
@@ -645,17 +656,19 @@ func ruleCachedGet(w *World, r *Report) {
 					have = append(have, t)
 				}
 			}
-			for _, e := range errConds {
-				need := negateTerm(e)
+			for _, conj := range errConds {
 				found := false
-				for _, h := range have {
-					if h == need {
-						found = true
+				for _, e := range conj {
+					need := negateTerm(e)
+					for _, h := range have {
+						if h == need {
+							found = true
+						}
 					}
 				}
 				if !found {
 					good = false
-					why = fmt.Sprintf("Get fails under %s; Cached answers true knowing only %v", e, have)
+					why = fmt.Sprintf("Get fails under %v; Cached answers true knowing only %v", conj, have)
 				}
 			}
 		}
@@ -681,10 +694,14 @@ var wave4WitnessesC15 = []Witness{
 }
 
 var wave4WitnessesC05 = []Witness{
+	{Name: "cachedget-slice-cached-without-lower-bound", Rule: "R-CACHEDGET", Doc: "Get rejects negative keys (D18); Cached must not report them available", Edits: []Edit{
+		{File: "variable.go", Old: "func (s SliceVarFetcher) Cached(key VariableKey, _ string) bool {\n	if key < 0 || int(key) >= len(s) {", New: "func (s SliceVarFetcher) Cached(key VariableKey, _ string) bool {\n	if int(key) >= len(s) {"}}},
+	{Name: "benign-cachedget-two-separate-tests", Benign: true, Edits: []Edit{
+		{File: "variable.go", Old: "func (s SliceVarFetcher) Cached(key VariableKey, _ string) bool {\n	if key < 0 || int(key) >= len(s) {\n		return false\n	}", New: "func (s SliceVarFetcher) Cached(key VariableKey, _ string) bool {\n	if key < 0 {\n		return false\n	}\n	if int(key) >= len(s) {\n		return false\n	}"}}},
 	{Name: "cachedget-slice-cached-off-by-one", Rule: "R-CACHEDGET", Edits: []Edit{
-		{File: "variable.go", Old: "func (s SliceVarFetcher) Cached(key VariableKey, _ string) bool {\n	if int(key) >= len(s) {\n		return false\n	}\n	return true\n}", New: "func (s SliceVarFetcher) Cached(key VariableKey, _ string) bool {\n	return 0 <= int(key) && int(key) <= len(s)\n}"}}},
+		{File: "variable.go", Old: "func (s SliceVarFetcher) Cached(key VariableKey, _ string) bool {\n	if key < 0 || int(key) >= len(s) {\n		return false\n	}\n	return true\n}", New: "func (s SliceVarFetcher) Cached(key VariableKey, _ string) bool {\n	return 0 <= int(key) && int(key) <= len(s)\n}"}}},
 	{Name: "benign-cachedget-single-expression", Benign: true, Edits: []Edit{
-		{File: "variable.go", Old: "func (s SliceVarFetcher) Cached(key VariableKey, _ string) bool {\n	if int(key) >= len(s) {\n		return false\n	}\n	return true\n}", New: "func (s SliceVarFetcher) Cached(key VariableKey, _ string) bool {\n	return len(s) > int(key)\n}"}}},
+		{File: "variable.go", Old: "func (s SliceVarFetcher) Cached(key VariableKey, _ string) bool {\n	if key < 0 || int(key) >= len(s) {\n		return false\n	}\n	return true\n}", New: "func (s SliceVarFetcher) Cached(key VariableKey, _ string) bool {\n	return key >= 0 && len(s) > int(key)\n}"}}},
 	{Name: "cachedget-map-cached-always-true", Rule: "R-CACHEDGET", Edits: []Edit{
 		{File: "variable.go", Old: "func (s MapVarFetcher) Cached(_ VariableKey, key string) bool {\n	_, exist := s[key]\n	return exist\n}", New: "func (s MapVarFetcher) Cached(_ VariableKey, key string) bool {\n	_, exist := s[key]\n	return exist || len(s) == 0\n}"}}},
 }
